@@ -8,6 +8,7 @@ EXPLANATION = ('Loop summaries and effect sets of core::_init and its three entr
                'T::from_f64(StandardNormal.sample(&mut rng)) per element collected in iteration order from ONE generator (row-major single stream => a request for fewer rows '
                'is a prefix of a larger one with the same d and seed); init_with_seed seeds a local generator from its argument and has no other effect; '
                'init_det(n, d) = init_with_seed(n, d, 42) with arguments in order; init seeds from the OS. Normality/independence as statistics are not decided (draw kind only).')
+FLOORS = {'obligations': 10}   # counted on the reference tree; fewer instantiated obligations is reported, never passed silently
 TECHNIQUE = 'loop summaries (nested trip counts, single carried generator) + effect-set analysis'
 
 
